@@ -5,6 +5,7 @@ cd "$(dirname "$0")/.."
 tier=${1:-quick}
 ls seeded | xargs -P 3 -I{} sh -c '
   id={}; prop=$(/venv/bin/python -c "import json;m=json.load(open(\"seeded/$id/meta.json\"));print(m.get(\"checked_with\") or m[\"property\"])")
-  VERIF_PROCS=6 tools/try_seeded.py seeded/$id $prop $id --tier '"$tier"' --keep > .cache/seed_eval_$id.log 2>&1
+  t=$(/venv/bin/python -c "import json;m=json.load(open(\"seeded/$id/meta.json\"));print(m.get(\"tier\") or \"'"$tier"'\")")
+  VERIF_PROCS=6 tools/try_seeded.py seeded/$id $prop $id --tier $t --keep > .cache/seed_eval_$id.log 2>&1
   grep -h "\"caught_by\"" .cache/seed_eval_$id.log | sed "s/^/$id /"
 '
